@@ -391,6 +391,79 @@ class Facts:
             self._cg = cg
         return self._cg
 
+    def callgraph_rec(self):
+        """Call graph for recursion analysis, with edge kinds.  p -> {callee: 'hard' | 'generic'}.
+        hard: direct/resolved calls, calls through `dyn Trait` (expanded to every workspace impl), closures
+        created, function items passed as values.  generic: static dispatch on a type parameter through a
+        workspace trait (expanded to every workspace impl).  Unresolved calls through *std* traits on a type
+        parameter (T::clone, T::eq ...) are not expanded at all: they re-enter the workspace only at a strictly
+        smaller type, and expanding them would merge all derives into one component."""
+        if getattr(self, "_cgr", None) is None:
+            cg = {}
+            im = self.impl_methods()
+            for p, f in self.fns.items():
+                out = {}
+
+                def add(q, kind):
+                    if out.get(q) != "hard":
+                        out[q] = kind
+                for cs in f.all_calls_incl_cleanup():
+                    tgt = cs.callee
+                    if tgt in self.fns and (cs.resolved or not cs.trait):
+                        add(tgt, "hard")
+                    elif cs.trait:
+                        st = cs.self_ty or ""
+                        is_dyn = st.startswith("dyn ") or "(dyn " in st or cs.f.get("res_kind") == "virtual"
+                        if tgt in self.fns and cs.resolved:
+                            add(tgt, "hard")
+                        elif cs.trait.startswith(("std::", "core::", "alloc::")) and not is_dyn:
+                            continue
+                        else:
+                            for h in im.get((cs.trait, cs.name), []):
+                                add(h.path, "hard" if is_dyn else "generic")
+                            if cs.decl in self.fns:
+                                add(cs.decl, "hard" if is_dyn else "generic")
+                    elif tgt in self.fns:
+                        add(tgt, "hard")
+                for b in range(len(f.blocks)):
+                    for s in f.blocks[b]["s"]:
+                        if s[0] == "=" and s[2].get("k") == "agg" and s[2].get("agg") == "closure" and s[2]["closure"] in self.fns:
+                            add(s[2]["closure"], "hard")
+                    t = f.blocks[b]["t"]
+                    if t["k"] == "call":
+                        for a in t["args"]:
+                            if a.get("k") == "const" and "fn" in a:
+                                q = a["fn"].get("res") or a["fn"].get("path")
+                                if q in self.fns:
+                                    add(q, "hard")
+                cg[p] = out
+            self._cgr = cg
+        return self._cgr
+
+    def sccs_rec(self, roots):
+        """cyclic SCCs of callgraph_rec() among functions reachable from roots."""
+        cg = self.callgraph_rec()
+        seen = set()
+        stack = list(roots)
+        while stack:
+            p = stack.pop()
+            if p in seen or p not in cg:
+                continue
+            seen.add(p)
+            stack.extend(cg[p])
+        save = self._cg
+        self._cg = {k: sorted(v) for k, v in cg.items()}
+        try:
+            comps = self.sccs(seen)
+        finally:
+            self._cg = save
+        out = []
+        for comp in comps:
+            cs = set(comp)
+            hard = sorted((a, b) for a in comp for b, k in cg[a].items() if b in cs and k == "hard")
+            out.append((comp, hard))
+        return out, seen
+
     def reach_from(self, roots):
         cg = self.callgraph()
         seen = set()
@@ -494,6 +567,11 @@ class Terms:
         self.memo = {}
         # locals to be kept symbolic under a given name (e.g. a loop-carried cursor such as `ip`)
         self.opaque = opaque or {}
+        # calls whose result identity matters (allocators of fresh objects): tagged with their call site
+        self.site_names = set()
+        self._term_bb = {}
+        for _b, _blk in enumerate(fn.blocks):
+            self._term_bb[id(_blk["t"])] = _b
 
     def operand(self, op, depth=0, stack=()):
         k = op["k"]
@@ -611,6 +689,9 @@ class Terms:
             else:
                 return self.operand(args[self.transparent[name]], depth, stack)
         callee = f.get("res") or f.get("path")
+        if name in self.site_names:
+            return ("call", callee, f.get("name"), tuple(self.operand(a, depth, stack) for a in args),
+                    f.get("self"), f.get("trait"), ("site", self._term_bb.get(id(t), -1)))
         return ("call", callee, f.get("name"), tuple(self.operand(a, depth, stack) for a in args),
                 f.get("self"), f.get("trait"))
 
